@@ -1,7 +1,7 @@
 """C01 — per-topic message ids are unique, gapless and follow acceptance order."""
 from props import topic_common as tc
 
-KINDS = ["NewGrp", "Sub", "Leave", "SetSelf", "SetOther", "Pub", "Unload"]
+KINDS = ["NewGrp", "Sub", "Leave", "SetSelf", "SetOther", "Pub", "Unload", "Reload"]
 
 
 def run(ctx):
@@ -10,4 +10,5 @@ def run(ctx):
         want=["-", "JRW", "JW"], given=["-", "JRW", "JRWPAS"],
         u1_quick={"want": ["-", "JRW"], "given": ["-", "JRW"], "kinds": ["NewGrp", "Sub", "Leave", "Pub", "Unload"], "maxseq": 3, "nusers": 2},
         u1_thorough={"want": ["-", "JRW", "JW"], "given": ["-", "JRW"], "kinds": KINDS, "maxseq": 3, "nusers": 2},
-        sim_quick={"num": 120, "depth": 16}, sim_thorough={"num": 1200, "depth": 24})
+        faults={"quick": 120, "thorough": 3000, "modes": ("error", "crash"), "kinds": ("Pub",)},
+        sim_quick={"num": 100, "depth": 16}, sim_thorough={"num": 1200, "depth": 24})
